@@ -150,6 +150,19 @@ pub fn execute(case: &W3Case) -> crate::kernel::run::RunOutcome<W3Out> {
                     }
                 }
             }
+            if sys::monitor(|| std::env::var_os("VSIM_W3_DEBUG").is_some()) {
+                // triage aid: every independent (tour, job) evaluation, and the sequential scan pair by pair
+                let mut acc = InsertionResult::make_failure();
+                for (ri, r) in routes.iter().enumerate() {
+                    for j in &jobs {
+                        let one = evaluator.evaluate_all(&state, &[*j], &[*r], &legs, &selector);
+                        let eval_ctx = EvaluationContext { goal: &state.problem.goal, job: j, leg_selection: &legs, result_selector: &selector };
+                        acc = eval_job_insertion_in_route(&state, &eval_ctx, r, InsertionPosition::Any, acc);
+                        let (a, b, id) = (render(&one), render(&acc), crate::scen::w2::job_key(j));
+                        sys::monitor(|| crate::say!("PAIR tour {ri} ({} acts) job {id}: independent {a}; scan so far {b}", r.route().tour.total()));
+                    }
+                }
+            }
             with_driver(|d| d.force_single_leaf(false));
             let (seq_r, min_r) = (render(&seq), render(&min_indep));
             sys::monitor(|| {
@@ -203,9 +216,9 @@ fn allowed_features() -> gen::problem::Features {
     allowed.objectives = false;
     allowed.unreachable = false;
     allowed.unreachable_random = false;
-    // multi-task jobs are placed by a greedy sequential search whose pruning uses the best cost known so far: its
-    // result depends on the accumulator by design (see C06), so they are outside the domain where equality is owed
-    allowed.multi_job = false;
+    // multi-task jobs: only one pickup + one delivery. Every other shape gets its task permutations sampled at random on
+    // every evaluation (VariableJobPermutation), i.e. selection is not deterministic there and equality is not owed
+    allowed.pd_only = true;
     allowed
 }
 
@@ -218,7 +231,28 @@ pub fn make_case(seed: u64, tier: Tier) -> (W3Case, gen::problem::Features) {
     let mut p = Prng::derive(seed, "w3");
     let ruins = (0..p.usize(1, states)).map(|_| p.pick(&RUINS).to_string()).collect();
     let spec = RunSpec::from_seed(seed);
-    (W3Case { problem: g.problem, matrices: g.matrices, spec, init: p.pick(&RECREATES).to_string(), ruins, plans }, g.features)
+    let init = p.pick(&RECREATES).to_string();
+    // goal variants inside the verdict domain (every layer's estimate of an insertion is >= 0 on metric data): orderings of
+    // minimize-unassigned / minimize-tours / one routing-cost objective, also without the leading minimize-unassigned
+    let mut problem = g.problem;
+    if p.chance(0.4) {
+        let cost = *p.pick(&["minimize-cost", "minimize-cost", "minimize-distance", "minimize-duration"]);
+        let objs: Vec<&str> = match p.below(6) {
+            0 => vec![cost],
+            1 => vec!["minimize-tours", cost],
+            2 => vec!["minimize-unassigned", cost],
+            3 => vec!["minimize-tours", "minimize-unassigned", cost],
+            4 => vec![cost, "minimize-tours"],
+            _ => vec!["minimize-unassigned", "minimize-tours", cost],
+        };
+        let mut objs: Vec<Value> = objs.into_iter().map(|t| json!({ "type": t })).collect();
+        if problem["plan"]["jobs"].as_array().is_some_and(|jobs| jobs.iter().any(|j| j.get("value").is_some())) {
+            // E1607: jobs with a value need the value objective (a per-job constant: the same in every tour)
+            objs.insert(0, json!({ "type": "maximize-value" }));
+        }
+        problem["objectives"] = Value::Array(objs);
+    }
+    (W3Case { problem, matrices: g.matrices, spec, init, ruins, plans }, g.features)
 }
 
 impl W3Scenario {
@@ -352,7 +386,7 @@ impl Scenario for W3Scenario {
             level: "exploration",
             rule: "3 of 4 cases (clause 1): seeded (problem on metric integer matrices, initial recreate, 1..3 ruins); for every ruined and refreshed state (tours incl. empty candidates x pending jobs) PositionInsertionEvaluator::evaluate_all with BestResultSelector and exhaustive leg selection is executed under N plans (quick 50, thorough 500) drawn from every strategy and worker count and compared (Success/Failure kind and bit-equal cost vector) with the sequential single-leaf scan and with the minimum over independent per-(tour, job) evaluations; evaluations = plan executions; non-trivial = states with >= 2 distinct plans and a successful reference; distinct = distinct (state, plan hash). 1 of 4 cases (clause 2): a full solve as in C01-C03 under a generated pool layout x scheduler strategy x worker count, document oracles R-part/R-feas/R-stat, non-trivial as in C01".into(),
             assumptions: vec![
-                "verdict domain: deterministic selection, metric integer matrices, scale 1, default goal (activity-level estimates >= 0, so route-level pruning in eval_job_insertion_in_route is exact)".into(),
+                "verdict domain: deterministic selection (single-task jobs and one-pickup-one-delivery jobs; other multi-task shapes get their task permutations sampled at random on every evaluation), metric integer matrices, scale 1, goals made of minimize-unassigned / minimize-tours / one routing-cost objective in any order (activity-level estimates >= 0, so route-level pruning in eval_job_insertion_in_route is exact)".into(),
                 "only split trees rayon 1.12 can produce (midpoint splits; flat_map never lets a leaf span two tours)".into(),
             ],
             components_real: vec!["vrp-core evaluators/selectors (evaluate_all, eval_job_insertion_in_route, select_insertion)", "rosomaxa parallel.rs call signatures"],
